@@ -9,7 +9,9 @@ use std::path::{Path, PathBuf};
 use std::process::{Command, Stdio};
 use std::time::{Duration, Instant};
 
-pub const CLI: &str = "/verif/target/cli/release/txtpp";
+pub fn cli() -> String {
+    std::env::var("VFY_CLI").unwrap_or_else(|_| "/verif/target/cli/release/txtpp".to_string())
+}
 
 /// what `vfy child-run` is asked to do
 #[derive(Debug, Clone, Serialize, Deserialize)]
@@ -127,7 +129,7 @@ pub fn run_lib(spec: &LibSpec, fsize: Option<u64>, limit: Duration) -> (Exit, Op
 
 /// run the txtpp binary
 pub fn run_cli(cwd: &Path, args: &[String], env: &[(String, String)], fsize: Option<u64>, limit: Duration) -> Exit {
-    let mut cmd = Command::new(CLI);
+    let mut cmd = Command::new(cli());
     cmd.args(args)
         .current_dir(cwd)
         .env_remove("TXTPP_FILE")
@@ -143,7 +145,7 @@ pub fn run_cli(cwd: &Path, args: &[String], env: &[(String, String)], fsize: Opt
         Ok(c) => c,
         Err(e) => {
             return Exit {
-                stderr: format!("cannot spawn {CLI}: {e}"),
+                stderr: format!("cannot spawn {}: {e}", cli()),
                 ..Default::default()
             }
         }
